@@ -185,6 +185,38 @@ model_event(struct model *model, struct emu *emu, int index)
 	return 0;
 }
 
+/* Ensures the payload of the event holds all the declared arguments, so
+ * they can be read when printing the event. */
+static int
+check_payload(struct ev_spec *es, struct emu_ev *ev)
+{
+	if (ev->payload_size < es->payload_size) {
+		err("event %s payload too small: %zu bytes, expected %zu",
+				ev->mcv, ev->payload_size, es->payload_size);
+		return -1;
+	}
+
+	const uint8_t *payload = (const uint8_t *) ev->payload;
+
+	for (int i = 0; i < es->nargs; i++) {
+		struct ev_arg *arg = &es->args[i];
+
+		if (arg->type != STR)
+			continue;
+
+		/* Strings must end inside the payload */
+		if (arg->offset >= ev->payload_size
+				|| memchr(&payload[arg->offset], '\0',
+					ev->payload_size - arg->offset) == NULL) {
+			err("event %s has unterminated string argument %s",
+					ev->mcv, arg->name);
+			return -1;
+		}
+	}
+
+	return 0;
+}
+
 int
 model_event_print(struct model *model, struct emu_ev *ev,
 		char *buf, int buflen)
@@ -200,6 +232,11 @@ model_event_print(struct model *model, struct emu_ev *ev,
 
 	if (es == NULL) {
 		err("cannot find event definition for %s", ev->mcv);
+		return -1;
+	}
+
+	if (check_payload(es, ev) != 0) {
+		err("bad payload for event %s", ev->mcv);
 		return -1;
 	}
 
